@@ -8,9 +8,14 @@ import re
 VERIF = os.path.dirname(os.path.dirname(os.path.abspath(__file__)))
 BEGIN, END = "<!-- seed-table:begin -->", "<!-- seed-table:end -->"
 rows = []
+benign = []
 for f in sorted(glob.glob(os.path.join(VERIF, "seeded", "*", "meta.json"))):
     m = json.load(open(f))
     name = os.path.basename(os.path.dirname(f))
+    if m.get("kind") == "behaviour-preserving":
+        summ = re.sub(r"\s+", " ", m.get("summary", "")).replace("|", "\\|")
+        benign.append("| %s | %s | %s | %s | %s |" % (name, m["property"], summ[:300] + ("..." if len(summ) > 300 else ""), "all 20 silent" if m.get("all_checks_silent") else "**fired: %s / undecided: %s**" % (m.get("checks_fired"), m.get("checks_analysis_error")), m.get("history", "")))
+        continue
     rules = []
     for l in m.get("reports", {}).get(m["property"], []):
         mm = re.search(r"rule (\S+) at", l)
@@ -28,7 +33,10 @@ text = [BEGIN, "", "## 11. Seeded changes and the checks that catch them", "",
         "%d confirmed changes (`seeded/<name>/{patch.diff,demo.py,meta.json}`); the property's own check reports %d of them on the tree with the patch applied "
         "(`git -C /repo apply`, all 20 quick checks, `git -C /repo checkout -- .`). \"history\" notes say when a rule had to be added first." % (n, hit), "",
         "| change | property | what was changed | caught by its check | all checks that fire | rules of the property's check (first 3) |",
-        "|---|---|---|---|---|---|"] + rows + ["", END]
+        "|---|---|---|---|---|---|"] + rows + ["",
+        "### 11.1 Behaviour-preserving refactorings (expected: no check fires)", "",
+        "%d confirmed refactorings (same layout; the demo prints the same digest with and without the patch); all twenty quick checks were run on the patched tree. \"history\" names the rule that had to be generalised first." % len(benign), "",
+        "| change | property whose anchors were edited | what was changed | checks on the patched tree | history |", "|---|---|---|---|---|"] + benign + ["", END]
 p = os.path.join(VERIF, "DESIGN.md")
 s = open(p).read()
 block = "\n".join(text)
